@@ -44,6 +44,7 @@ class Flow:
         self.opaque = set(opaque_funcs)  # package functions kept as ('pkgcall', qual, args) instead of being expanded
         self.stop = set(stop_funcs)      # Func objects whose parameters are sources
         self.hook = hook                  # hook(fn, name, what, payload, flow) -> frozenset | None
+        self.expr_hook = None             # expr_hook(fn, subscript expr, flow, env, depth) -> frozenset | None
         self.maxdepth = MAXDEPTH
         self._cfg = {}
         self._rd = {}
@@ -285,6 +286,15 @@ class Flow:
         if isinstance(e, (ast.ListComp, ast.SetComp, ast.GeneratorExp)):
             return fs(("inloop", fs(("list", (T(e.elt),))), T(e.generators[0].iter)))
         if isinstance(e, ast.DictComp):
+            # a key-for-key copy ({k: X[k] for k in sorted(X)}, {k: v for k, v in sorted(X.items())}) has the contents of X,
+            # field by field
+            try:
+                from .pointsto import sorted_copy_info
+                info = sorted_copy_info(self.res, e, fn, mod)
+            except Exception:
+                info = None
+            if info is not None and not info[1]:
+                return fs(("ext", "builtins.dict", (T(info[0]),), ()))
             return fs(("dict", ((T(e.key), T(e.value)),)))
         if isinstance(e, ast.Starred):
             return fs(("elem", T(e.value)))
@@ -302,6 +312,10 @@ class Flow:
             ops = "/".join(type(o).__name__ for o in e.ops)
             return fs(("op", "cmp:" + ops, tuple(T(x) for x in [e.left] + list(e.comparators))))
         if isinstance(e, ast.Subscript):
+            if self.expr_hook is not None:
+                r = self.expr_hook(fn, e, self, env, depth)
+                if r is not None:
+                    return r
             base = T(e.value)
             idx = T(e.slice)
             # field-sensitive read for a constant string key
@@ -514,10 +528,11 @@ class Flow:
                     callee = k[1]
                     cenv = self._bind_env(callee, value, f, env, depth, skip_self=callee.cls is not None and not callee.is_static)
                     rets = self.res.return_exprs(callee)
-                    if rets and all(isinstance(r, ast.Tuple) and len(r.elts) == n for r in rets):
+                    tups = [self.as_tuple(r, callee) for r in rets]
+                    if rets and all(t_ is not None and len(t_) == n for t_ in tups):
                         handled = True
-                        for r in rets:
-                            out |= self.term(r.elts[idx], callee, cenv, depth + 1)
+                        for t_ in tups:
+                            out |= self.term(t_[idx], callee, cenv, depth + 1)
         if not handled:
             tv = self.term(value, f, env, depth + 1)
             tuples = [t for t in tv if t[0] == "list" and len(t[1]) == n and idx is not None]
@@ -806,7 +821,52 @@ class Flow:
                     out += self._dicts_in(p, depth + 1)
         return out
 
+    def namedtuple_fields(self, func_expr, fn, mod):
+        """Field names if func_expr names a namedtuple class of the package (X = namedtuple('X', ...) at module level, or
+        class X(NamedTuple) with annotated fields); None otherwise."""
+        if not isinstance(func_expr, ast.Name):
+            return None
+        m = mod or (fn.module if fn else None)
+        if m is None:
+            return None
+        cache = self.__dict__.setdefault("_nt", {})
+        key = (m.name, func_expr.id)
+        if key in cache:
+            return cache[key]
+        fields = None
+        vals = m.assigns.get(func_expr.id, [])
+        if len(vals) == 1 and isinstance(vals[0], ast.Call) and ast.unparse(vals[0].func).split(".")[-1] == "namedtuple" and len(vals[0].args) >= 2:
+            spec = vals[0].args[1]
+            if isinstance(spec, ast.Constant) and isinstance(spec.value, str):
+                fields = spec.value.replace(",", " ").split()
+            elif isinstance(spec, (ast.List, ast.Tuple)) and all(isinstance(x, ast.Constant) and isinstance(x.value, str) for x in spec.elts):
+                fields = [x.value for x in spec.elts]
+        if fields is None:
+            for c in self.prog.classes.values():
+                if c.module is m and c.name == func_expr.id and any(ast.unparse(b).split(".")[-1] == "NamedTuple" for b in c.node.bases):
+                    fields = [st.target.id for st in c.node.body if isinstance(st, ast.AnnAssign) and isinstance(st.target, ast.Name)]
+        cache[key] = fields
+        return fields
+
+    def as_tuple(self, expr, fn, mod=None):
+        """Element expressions of a tuple-valued expression: a tuple display, or a namedtuple constructed in place."""
+        if isinstance(expr, ast.Tuple):
+            return list(expr.elts)
+        if isinstance(expr, ast.Call):
+            fields = self.namedtuple_fields(expr.func, fn, mod)
+            if fields and not any(isinstance(a, ast.Starred) for a in expr.args) and all(kw.arg for kw in expr.keywords):
+                elts = list(expr.args) + [None] * (len(fields) - len(expr.args))
+                for kw in expr.keywords:
+                    if kw.arg in fields:
+                        elts[fields.index(kw.arg)] = kw.value
+                if len(elts) == len(fields) and all(x is not None for x in elts):
+                    return elts
+        return None
+
     def _call(self, e, fn, env, depth, mod):
+        nt = self.as_tuple(e, fn, mod)
+        if nt is not None and not isinstance(e, ast.Tuple):
+            return fs(("list", tuple(self.term(x, fn, env, depth + 1, mod) for x in nt)))
         targets = self.res.call_targets(e, fn, mod)
         out = set()
         args = self._many([a for a in e.args], fn, env, depth + 1, mod)
